@@ -85,6 +85,24 @@ class Ctx(object):
             self._gr[k] = g
         return g
 
+    def captured_flag(self, body, canonical):
+        """(1, raw field name) of the captured parameter whose canonical (pinned-tree) name is `canonical`"""
+        an = self.an(body)
+        for raw, canon_name in getattr(an, "_canon", {}).items():
+            if canon_name == canonical:
+                return (1, raw)
+        return (1, canonical)
+
+    def graph_with(self, body, extra_flags=(), pinned=None):
+        """CFG refined by the body's constant-carrying locals (as graph()) plus the given flags / pinned values"""
+        from . import sample
+        base = [f for f in sample.scenario_flags(body)][:16]
+        flags = list(extra_flags) + [f for f in base if f not in extra_flags]
+        g = flow.Graph(body, flags, pinned=pinned)
+        if len(g.nodes) > 60 * max(1, len(body.blocks)):
+            g = flow.Graph(body, list(extra_flags), pinned=pinned)
+        return g
+
     # ---- obligations ---------------------------------------------------------------------
     def ok(self, rule, key, site="", detail=""):
         self.obligations.append({"rule": rule, "key": key, "ok": True, "site": site, "detail": detail})
